@@ -14,7 +14,10 @@ import (
 	"verifh/sx"
 )
 
-func Setup() { common.Setup() }
+func Setup() {
+	common.Setup()
+	common.SetupFixedString()
+}
 
 var menu = [][]common.Kind{
 	{},
